@@ -4,6 +4,7 @@ mod fault;
 mod jfile;
 mod journal;
 mod store;
+mod txreplay;
 mod util;
 
 use serde_json::json;
@@ -103,6 +104,22 @@ fn main() {
             };
             std::fs::create_dir_all(&a.out_dir).ok();
             let out = if cmd == "jcut" { jfile::run_cut(&a) } else { jfile::run_alter(&a) };
+            println!("{}", serde_json::to_string(&json!({"result": out.to_json()})).unwrap());
+        }
+        "txreplay" => {
+            let a = txreplay::TxArgs {
+                file: PathBuf::from(arg(&args, "--file").expect("--file")),
+                out_dir: PathBuf::from(arg(&args, "--out").unwrap_or("/verif/work".into())),
+                property: arg(&args, "--property").unwrap_or("C07".into()),
+                seed: arg(&args, "--seed").and_then(|s| s.parse().ok()).unwrap_or(1),
+                nkeys: arg(&args, "--nkeys").and_then(|s| s.parse().ok()).unwrap_or(2),
+                single_writer: args.iter().any(|x| x == "--single-writer"),
+                allowed_kf: arg(&args, "--kf")
+                    .map(|s| s.split(',').filter(|x| !x.is_empty()).map(String::from).collect())
+                    .unwrap_or_default(),
+            };
+            std::fs::create_dir_all(&a.out_dir).ok();
+            let out = txreplay::run_tx_replay(&a);
             println!("{}", serde_json::to_string(&json!({"result": out.to_json()})).unwrap());
         }
         _ => {
